@@ -506,7 +506,25 @@ func checkC05(c *Ctx) {
 									return
 								}
 								for _, m := range nd.ms {
-									if c2.Call.Method.Name() == m && unconditional(hc, in2) {
+									if c2.Call.Method.Name() != m {
+										continue
+									}
+									// reached on every run of the helper that reports success (or on every run at all)
+									okRet := func(x ssa.Instruction) bool {
+										ret, ok := x.(*ssa.Return)
+										if !ok {
+											return false
+										}
+										if len(ret.Results) == 0 {
+											return true
+										}
+										cst, isC := returnedValue(ret, len(ret.Results)-1, nil).(*ssa.Const)
+										if !isC {
+											return true
+										}
+										return cst.Value == nil || (cst.Value.Kind() == constant.Bool && constant.BoolVal(cst.Value))
+									}
+									if skip, _ := reach(hc, nil, okRet, isInstr(in2), nil); !skip {
 										found = true
 									}
 								}
